@@ -381,7 +381,8 @@ def magnitude_exception(case):
     if d.get('kind') != 'exception':
         return False
     return (d.get('model') == 2 and d.get('err') in ('ZeroDivisionError', 'Other:OverflowError', 'TypeError')) or \
-        (d.get('model') == 3 and (d.get('err') == 'TypeError' or uc.has_fn(uc.tree_unjson(case['tree']), (3, 4))))
+        (d.get('model') == 3 and d.get('err') in ('ZeroDivisionError', 'Other:OverflowError', 'TypeError') and
+         uc.model_may_decline(uc.tree_unjson(case['tree'])))
 
 
 # repaired in /repo (fix: commits, see build/fixes): F6 compound exponents, scaled dimensionless arguments
